@@ -72,6 +72,8 @@ template <class T> struct LPColSetBase
    LPColSetBase<T>& operator=(const LPColSetBase<S>& o) { g_col_asg++; g_col_seq = ++g_seq; g_col_src = o.d->ctag; d->ctag = o.d->ctag; return *this; }
 };
 
+/* README 17: constructors of class templates are only synthesised for uses that textually follow a plain automatic object / copy */
+static inline void force_bases() { LPRowSetBase<double> a; LPRowSetBase<double> a2(a); LPColSetBase<double> b; LPColSetBase<double> b2(b); LPRowSetBase<Rational> c; LPRowSetBase<Rational> c2(c); LPColSetBase<Rational> d; LPColSetBase<Rational> d2(d); }
 template <class T> struct SPxLPBase : LPRowSetBase<T>, LPColSetBase<T>
 {
    typedef T R;
